@@ -88,6 +88,10 @@ var c04Inputs = []string{
 	"func deep(x) { pr(x) + outer(x) }; println(deep(1)); println(deep(1))",
 	"func setg(v) { gl2 = v }; gl2 = 0; setg(7); println(gl2); gl2 = 1; setg(7); println(gl2)",
 	"func s5v(a, b, c, d, e) { e }; println(s5v(1, 2, 3, 4, 5), s5v(1, 2, 3, 4, 6))",
+	// a global function redefined from inside a function that already holds a reference to it
+	"func g(x) { x + 1 }; func f(x) { g(x) }; println(f(1)); func sw() { g(0); g = func(x) { x * 100 } }",
+	"sw(); println(f(1))",
+	"func two2() { verif_counter() }; func one1() { two2() }; func zero0() { one1() }; println(zero0(), zero0(), zero0())",
 }
 
 type c04Cfg struct{ noReg bool }
